@@ -62,8 +62,15 @@ impl Wake for Flag {
     }
 }
 
+/// Four identities that differ in their LAST byte only (any index keyed by a part of the
+/// identity collides on them).
 fn ids() -> [PeerId; 4] {
-    [PeerId([1; 32]), PeerId([2; 32]), PeerId([3; 32]), PeerId([4; 32])]
+    let mk = |last: u8| {
+        let mut b = [0xab; 32];
+        b[31] = last;
+        PeerId(b)
+    };
+    [mk(1), mk(2), mk(3), mk(4)]
 }
 
 /// sender index: 0 = no identity attached, 1..=3 the three identities, 4 = a fourth identity
@@ -155,7 +162,7 @@ fn build(auth: &Value, shared: &Arc<Mutex<Shared>>) -> Vec<Box<dyn FnMut(Request
             Err(Response::new(Bytes::from_static(b"go away")).with_status(StatusCode::TooManyRequests).with_header("why", "nope"))
         })),
         "reject_odd_senders" => clones!(RequireAuthorizationLayer::new(|r: &mut Request<Bytes>| -> Result<(), Response<Bytes>> {
-            let sender = r.peer_id().map(|p| p.0[0] as usize).unwrap_or(0);
+            let sender = r.peer_id().map(|p| p.0[31] as usize).unwrap_or(0);
             if sender % 2 == 1 {
                 Err(Response::new(Bytes::from(format!("sender {sender}"))).with_status(StatusCode::BadRequest).with_header("why", "odd"))
             } else {
